@@ -231,9 +231,8 @@ theorem parseAMFObject_tbl (tbl : TxnTable) (p : Bytes) :
   | panic => rfl
   | ok name =>
     simp only []
-    cases Gen.Rtmp.parseCommandArm name with
-    | response =>
-      simp only []
+    by_cases hr : Gen.Rtmp.parseCommandArm name = .response
+    · simp only [hr]
       cases (sliceFrom p (Amf0.size (.str name)) >>= numDec) with
       | err k => rfl
       | panic => rfl
@@ -241,10 +240,8 @@ theorem parseAMFObject_tbl (tbl : TxnTable) (p : Bytes) :
         simp only []
         cases hf : tbl.find tid with
         | none => simp only []; exact (erase_of_find_none hf).symm
-        | some req => simp only []; cases Gen.Rtmp.parseResponseArm req <;> rfl
-    | NewConnectAppPacket => rfl
-    | NewPublishPacket => rfl
-    | NewCallPacket => rfl
+        | some req => simp only [ctorResult_tbl]
+    · simp only [hr, ctorResult_tbl]
 
 theorem decodeWith_tbl (r : Res Kind × TxnTable) (p : Bytes) : (decodeWith r p).2 = r.2 := by
   obtain ⟨r, t⟩ := r
@@ -262,26 +259,18 @@ theorem dispatchSt_tbl (tbl : TxnTable) (m : Msg) :
     | panic => simp only []; cases Gen.Rtmp.decodeMessageArm m.hdr.ty <;> rfl
     | ok p =>
       simp only []
-      cases Gen.Rtmp.decodeMessageArm m.hdr.ty with
-      | parseAMFObject =>
-        simp only [decodeWith_tbl, parseAMFObject_tbl]
+      by_cases ha : Gen.Rtmp.decodeMessageArm m.hdr.ty = .parseAMFObject
+      · simp only [ha, decodeWith_tbl, parseAMFObject_tbl]
         cases strDec p with
         | err k => rfl
         | panic => rfl
         | ok name =>
           simp only []
-          cases Gen.Rtmp.parseCommandArm name with
-          | response =>
-            simp only []
+          by_cases hr : Gen.Rtmp.parseCommandArm name = .response
+          · simp only [hr]
             cases (sliceFrom p (Amf0.size (.str name)) >>= numDec) <;> rfl
-          | NewConnectAppPacket => rfl
-          | NewPublishPacket => rfl
-          | NewCallPacket => rfl
-      | NewSetChunkSize => rfl
-      | NewSetPeerBandwidth => rfl
-      | NewUserControl => rfl
-      | NewWindowAcknowledgementSize => rfl
-      | rejected => rfl
+          · simp only [hr]
+      · simp only [ha, decodeWith_tbl, ctorResult_tbl]
 
 theorem onPacketWritten_eq (tbl : TxnTable) (p : Packet) :
     onPacketWritten tbl p = match requestOf p with | some (t, n) => tbl.insert t n | none => tbl := by
@@ -351,11 +340,7 @@ theorem run_append (ops : List Op) (op : Op) : run (ops ++ [op]) = step (run ops
   simp [run, List.foldl_append]
 
 /-- The kind of the response packet for the request named `req`. -/
-def respKind (req : Bytes) : Option Kind :=
-  match Gen.Rtmp.parseResponseArm req with
-  | .NewConnectAppResPacket => some .connectRes
-  | .NewCreateStreamResPacket => some .createStreamRes
-  | .rejected => none
+def respKind (req : Bytes) : Option Kind := ctorKind (Gen.Rtmp.parseResponseArm req)
 
 theorem unmarshal_kind {k : Kind} {data : Bytes} {p : Packet} (h : unmarshal k data = ok p) : p.kind = k := by
   cases k <;> rw [unmarshal] at h
@@ -425,10 +410,8 @@ theorem dispatchSt_response (tbl : TxnTable) (m : Msg) (tid : UInt64) (h : respo
   by_cases h0 : m.payload.length = 0
   · simp [h0] at h
   · simp only [h0, if_false] at h ⊢
-    cases harm : Gen.Rtmp.decodeMessageArm m.hdr.ty
-    case parseAMFObject =>
-      rw [harm] at h
-      simp only [] at h ⊢
+    by_cases harm : Gen.Rtmp.decodeMessageArm m.hdr.ty = .parseAMFObject
+    · simp only [harm] at h ⊢
       cases hs : (if Gen.Rtmp.decodeMessageSkipsOneByte m.hdr.ty = true then sliceFrom m.payload 1 else ok m.payload)
       case ok p =>
         rw [hs] at h
@@ -438,10 +421,8 @@ theorem dispatchSt_response (tbl : TxnTable) (m : Msg) (tid : UInt64) (h : respo
         case ok name =>
           rw [hn] at h
           simp only [] at h ⊢
-          cases hc : Gen.Rtmp.parseCommandArm name
-          case response =>
-            rw [hc] at h
-            simp only [] at h ⊢
+          by_cases hc : Gen.Rtmp.parseCommandArm name = .response
+          · simp only [hc] at h ⊢
             cases ht : (sliceFrom p (Amf0.size (.str name)) >>= numDec)
             case ok tid' =>
               rw [ht] at h
@@ -451,16 +432,18 @@ theorem dispatchSt_response (tbl : TxnTable) (m : Msg) (tid : UInt64) (h : respo
               · intro hf; rw [hf]; rfl
               · intro req hf q hq
                 rw [hf] at hq
-                simp only [respKind] at hq ⊢
-                cases hr : Gen.Rtmp.parseResponseArm req <;> rw [hr] at hq <;> simp only [decodeWith] at hq ⊢
-                · rw [unmarshal_kind hq]
-                · rw [unmarshal_kind hq]
-                · cases hq
+                simp only [respKind, ctorResult] at hq ⊢
+                cases hk : ctorKind (Gen.Rtmp.parseResponseArm req) with
+                | none => rw [hk] at hq; cases hq
+                | some k =>
+                  rw [hk] at hq
+                  simp only [decodeWith] at hq
+                  rw [unmarshal_kind hq]
             all_goals (rw [ht] at h; cases h)
-          all_goals (rw [hc] at h; cases h)
+          · simp only [hc] at h; cases h
         all_goals (rw [hn] at h; cases h)
       all_goals (rw [hs] at h; cases h)
-    all_goals (rw [harm] at h; cases h)
+    · simp only [harm] at h; cases h
 
 theorem dispatch_err_of_fst {tbl : TxnTable} {m : Msg} {e : EK} (h : (dispatchSt tbl m).1 = err e) : dispatch tbl m = err e := by
   unfold dispatch
